@@ -301,6 +301,22 @@ func (s *IndexedState) add(ctx *Context, id string, x Map) (string, error) {
 	if err != nil {
 		return id, err
 	}
+	// The hook runs before the indexes are touched.  It may look at
+	// the fact that is being overwritten, and if that fact has
+	// expired, looking at it removes it -- together with its entries
+	// in the rule index, which would include the ones of the new rule
+	// if it were indexed already (same id, same patterns).
+	if s.addHook != nil {
+		s.withPrivilege(ctx)
+		defer s.withoutPrivilege(ctx)
+		err := s.addHook(ctx, s, id, fact, ctx.GetLoc().loading)
+		if err != nil {
+			Log(ERROR, ctx, "IndexedState.add", "state", s.Name, "error", err,
+				"when", "addHook")
+			return "", err
+		}
+	}
+
 	// restore puts the patterns of an overwritten rule back into
 	// the rule index when the overwrite is refused after all (the
 	// old rule is still the one that's stored).
@@ -334,24 +350,6 @@ func (s *IndexedState) add(ctx *Context, id string, x Map) (string, error) {
 				restore()
 				return "", err
 			}
-		}
-	}
-
-	// Try the hook first?
-	if s.addHook != nil {
-		s.withPrivilege(ctx)
-		defer s.withoutPrivilege(ctx)
-		err := s.addHook(ctx, s, id, fact, ctx.GetLoc().loading)
-		if err != nil {
-			Log(ERROR, ctx, "IndexedState.add", "state", s.Name, "error", err,
-				"when", "addHook")
-			if rule != nil {
-				// Take out what was just indexed for the
-				// refused rule.
-				s.unindexRule(ctx, id, rule)
-			}
-			restore()
-			return "", err
 		}
 	}
 
